@@ -129,14 +129,20 @@ def check_conventions(chk, rule):
             keys = [const_str(s.value) for s in n.body if isinstance(s, ast.Assign) and unparse(s.targets[0]) == "self.model_key"]
             if keys and lst in want:
                 rule.require(SHAPES.get(keys[0]) == lst, f"{smk.key}|key:{keys[0]}", smk.where(n), f"_set_model_key maps {list(lst)} to `{keys[0]}`, whose agreed shape is {SHAPES.get(keys[0])}")
-    # fit functions' coef_id lists
-    for mod, fn, keys in ((HTC, "fit_hdd_tidd_cdd", ("hdd_tidd_cdd_smooth", "hdd_tidd_cdd")), (CHT, "fit_c_hdd_tidd", ("c_hdd_tidd_smooth", "c_hdd_tidd")), (TIDD, "fit_tidd", ("tidd",))):
-        f = chk.repo.func(mod, fn)
-        got = {g for g in str_lists(f.node) if g[-1] == "intercept"}
-        for k in keys:
-            rule.require(SHAPES[k] in got, f"{f.key}|coef_id:{k}", f.where(), f"{fn}: coef_id for `{k}` must be {list(SHAPES[k])}; found {sorted(got)}")
-        extra = got - {SHAPES[k] for k in keys}
-        rule.require(not extra, f"{f.key}|coef_id-extra", f.where(), f"{fn}: unexpected coefficient-id sequence(s) {sorted(extra)}")
+    # fit functions' coef_id lists: read off the interpreted fit functions (rules/fit_tables.py: the optimiser and the objective factory are
+    # recorders), so it does not matter whether the list is a literal, a named constant or the entry of a lookup table
+    from rules.fit_tables import outcomes as _fit_outcomes
+    seen_fit = {}
+    for o in _fit_outcomes(chk):
+        f, k, rec = o["function"], o["key"], o["rec"]
+        ids = tuple((rec.get("objective") or {}).get("coef_id") or ()) if isinstance(rec, dict) else ()
+        ids_o = tuple((rec.get("optimizer") or {}).get("coef_id") or ()) if isinstance(rec, dict) else ()
+        seen_fit.setdefault((f.key, k), (f, set()))[1].update({ids, ids_o})
+    for (fk, k), (f, got) in seen_fit.items():
+        rule.require(got == {SHAPES[k]}, f"{fk}|coef_id:{k}", f.where(), f"{f.name}: coef_id for `{k}` must be {list(SHAPES[k])}; the optimiser / objective get {sorted(got)}")
+    if len(seen_fit) < 5:
+        from engine.index import AnalysisError as _AE
+        raise _AE(f"coefficient conventions: only {len(seen_fit)} (fit function, model key) pairs interpreted")
     # get_full_model_x unpack order == shape of that model_key
     up = unpack_table(chk)
     gx = chk.repo.func(FM, "get_full_model_x")
